@@ -228,6 +228,33 @@ let handle (toks : string list) : string =
             (t', w')
         | _ -> failwith "step") (0, empty_world) steps in
       if !out = [] then "-" else String.concat " ; " (List.rev !out)
+  | ["EF"; flags; now; srcs; dsts; extra; keepstr; faults; junks] ->
+      (* the engine with injected faults (Model/EngineFaults.v): faults = source paths whose transfer failed, junks = what was left
+         at those paths (dst-entry format; a path not listed is left absent) *)
+      let kv = kv_of flags in
+      let g k = List.assoc k kv in
+      let b k = g k = "1" in
+      let c = { c_delete = b "delete"; c_force_delete = b "force"; c_threshold = zint (g "thr"); c_dry_run = b "dry";
+                c_ignore_times = b "it"; c_size_only = b "so"; c_checksum = b "ck"; c_big = nint (g "big"); c_max_errors = nint (g "maxerr") } in
+      let src = if srcs = "-" then [] else List.map (fun it -> match String.split_on_char ':' it with
+        | [k; p; sz; mt; ct; sp] -> { se_path = path_of_str p; se_is_dir = (k = "d"); se_size = nint sz; se_mtime = zint mt; se_content = nint ct; se_sparse = (sp = "1") }
+        | _ -> failwith "src entry") (String.split_on_char ',' srcs) in
+      let (junk, _) = fs_of_entries junks in            (* parsed first: fs_of_entries resets the directory-stat table *)
+      let (dst, dorder) = fs_of_entries dsts in
+      let ex = if extra = "-" then [] else List.map path_of_str (String.split_on_char ',' extra) in
+      let u = List.fold_left (fun acc p -> if List.mem p acc then acc else acc @ [p]) [] (dorder @ List.map (fun e -> e.se_path) src @ ex) in
+      let refuse d n t = Z.ltb (Z.mul t n) (Z.mul (z_of_int 100) d) in
+      let ds p = (match Hashtbl.find_opt dirstat (str_of_path p) with Some x -> x | None -> (n_of_int 4096, Z0)) in
+      let keep = if keepstr = "-" then [] else List.map (fun p ->
+        { se_path = path_of_str p; se_is_dir = false; se_size = N0; se_mtime = Z0; se_content = N0; se_sparse = false }) (String.split_on_char ',' keepstr) in
+      let fl = if faults = "-" then [] else List.map path_of_str (String.split_on_char ',' faults) in
+      let flt p = if List.mem p fl then Some E_NoEnt else None in
+      let r = run_f flt junk refuse ds c (zint now) u keep src dst in
+      Printf.sprintf "refused=%d exit=%d errs=%s evs=%s dst=%s"
+        (if r.r_refused then 1 else 0) (int_of_z (exit_status c r))
+        (if r.r_errors = [] then "-" else String.concat "," (List.map (fun ((p, a), e) -> Printf.sprintf "%s:%s:%s" (str_of_path p) (act_str a) (err_str e)) r.r_errors))
+        (if r.r_events = [] then "-" else String.concat "," (List.map (fun (a, p) -> Printf.sprintf "%s:%s" (act_str a) (str_of_path p)) r.r_events))
+        (str_of_fs r.r_fs u)
   | "E" :: flags :: now :: srcs :: dsts :: extra :: keeprest ->
       (* one run of the one-way engine; extra = further universe paths (parents the run may create);
          optional 7th token: paths the scan found but a filter / size bound / resume state kept out of the run *)
